@@ -661,25 +661,34 @@ def run(ctx):
         ctx.unknown('R15f', m, fn, 'no realpath call found', construct='realpath argument')
 
     # ---- R15g: the directory that is tested is the configured one
-    ctx.rule('R15g', 'the attribute tex_input_directory is written by set_tex_input_directory() (and __init__) only: no '
-                     'temporary override moves the directory the containment test is made against', 2)
+    ctx.rule('R15g', 'the attributes tex_input_directory and strict_input are written by set_tex_input_directory() (and '
+                     '__init__) only: no temporary override moves the directory the containment test is made against, or '
+                     'switches the test off for nested includes', 2)
     l2m_ = repo.mod('pylatexenc.latex2text')
     for q_, f_ in sorted(l2m_.functions.items()):
         for x_ in iter_own(f_):
             hit = None
-            if isinstance(x_, ast.Attribute) and isinstance(x_.ctx, ast.Store) and x_.attr == 'tex_input_directory':
-                hit = x_
-            if isinstance(x_, ast.Call) and any(isinstance(a_, ast.Constant) and a_.value == 'tex_input_directory'
-                                               for a_ in x_.args):
-                hit = x_
+            which = None
+            for fld_ in ('tex_input_directory', 'strict_input'):
+                if isinstance(x_, ast.Attribute) and isinstance(x_.ctx, ast.Store) and x_.attr == fld_:
+                    hit, which = x_, fld_
+                if isinstance(x_, ast.Call) and any(isinstance(a_, ast.Constant) and a_.value == fld_ for a_ in x_.args):
+                    hit, which = x_, fld_
             if hit is None:
                 continue
             okw = q_.endswith('.set_tex_input_directory') or q_.endswith('.__init__')
-            ctx.decide('R15g', okw, l2m_, enclosing_stmt(hit) or hit, '%s sets tex_input_directory' % q_,
-                       '%s overrides tex_input_directory (%s): files requested while the override is active are resolved and '
-                       'tested against another directory than the configured one (a symlinked sub-directory moves the base '
-                       'outside), so an outside file is read in strict mode' % (q_, short(hit, 60)),
-                       construct='%s: write of tex_input_directory' % q_)
+            if which == 'tex_input_directory':
+                ctx.decide('R15g', okw, l2m_, enclosing_stmt(hit) or hit, '%s sets tex_input_directory' % q_,
+                           '%s overrides tex_input_directory (%s): files requested while the override is active are resolved and '
+                           'tested against another directory than the configured one (a symlinked sub-directory moves the base '
+                           'outside), so an outside file is read in strict mode' % (q_, short(hit, 60)),
+                           construct='%s: write of tex_input_directory' % q_)
+            else:
+                ctx.decide('R15g', okw, l2m_, enclosing_stmt(hit) or hit, '%s sets strict_input' % q_,
+                           '%s overrides strict_input (%s): while the override is active -- during the conversion of an included '
+                           'file -- \\input requests are served without the containment test, so an inside file that itself '
+                           'inputs ../x or an absolute name pulls in content from outside the directory'
+                           % (q_, short(hit, 60)), construct='%s: write of strict_input' % q_)
     # ---- R15h: paired push/pop of converter state
     ctx.rule('R15h', 'converter state pushed for the duration of an \\input (self.X.append(..) ... self.X.pop()) is popped in '
                      'a finally clause: an exception raised in between must not leave the file marked as being read', 0)
